@@ -33,7 +33,7 @@ CLAIMS = {
         "specified fields match'; L3 AccessControlList.is_permitted/add_rule/remove_rule on a real list with oracle "
         "matchers: lowest matching position decides, else the list's implicit action (given to the constructor or assigned afterwards), exactly one hit counter moves, edits touch only the addressed "
         "slot (Python API and request API), every position -2..max+1.",
-        "note": "Bounds: up to 3 (quick) / 5 (thorough) populated slots; 4 field combinations for edits. Trusted: "
+        "note": "Bounds: up to 3 (quick) / 5 (thorough) populated slots; 6 field combinations for edits (incl. differing source / destination wildcards), 0-2 near-identical rules already present. Trusted: "
         "CrossHair/z3, the lemma composition, the recording oracle standing in for the kernel in L2, the BV model of "
         "int(IPv4Address). Scenario-file loading of rules is checked under C20, not here.",
         "technique": "symbolic execution of the real code (CrossHair+z3) + AST-to-SMT translation of the address kernel (z3 BV32), counterexamples replayed",
@@ -58,7 +58,7 @@ CLAIMS = {
         "every service/application operating state: a request that does not reach its handler answers unreachable/"
         "failure and leaves Simulation.describe_state() bit-identical and sends no frame; (actions) every entry of a "
         "generated action map is never 'unreachable' when its components exist, never reaches a handler when they do not; with a file or a whole folder deleted earlier in the episode, every request and action that still addresses it (other than restoring exactly it, or creation) is not answered success and changes nothing; (service gate) terminal requests of a node whose own terminal is in any non-RUNNING service state, after a history of successful requests, are not answered success and never reach the target; (run-time routes) after an application was installed and uninstalled through the request API the node's request tree is what it was before, and every path that existed only in between is answered unreachable and changes nothing; the same live-tree sweep on a firewall and on a wireless router; files that come into being during the episode (create request with / without force, forced re-creation of a deleted name, copy_file) are addressed by requests that act on exactly that file.",
-        "note": "Bounds: one host of a 4-node (quick) / two topologies (thorough) scenario; leaves with structured "
+        "note": "Bounds: one host of a generated 4-node scenario, the firewall of a generated firewall-with-DMZ scenario and one wireless router of the shipped wireless scenario (quick); two host topologies (thorough); leaves with structured "
         "payload arguments (user/session/terminal/nmap/ACL requests) are exercised through the action map only. Trusted: "
         "CrossHair/z3, describe_state() as the state observation, the leaf-wrapping recorder.",
         "technique": TECH_S,
@@ -70,7 +70,7 @@ CLAIMS = {
         "states incl. INSTALLING} x {NIC flag} x {file live / file deleted / folder deleted / folder deleted and restored through the requests with the file deleted afterwards}, PrimaiteGame.action_mask "
         "(and PrimaiteGymEnv.action_masks) equals 'executing the request now reaches its handler', a masked-out action "
         "never succeeds and an allowed one is never refused by a permission rule.",
-        "note": "Bounds: the generated scenarios and action map (54/66 entries); quick couples service/application states "
+        "note": "Bounds: the generated scenarios and action map (66 entries switched, 79 routed, 94 with a firewall; a few more with the run-time-installed application); quick couples service/application states "
         "(6 pairs), thorough takes the full product. Trusted: CrossHair/z3, the leaf-wrapping recorder.",
         "technique": TECH_S,
     },
@@ -99,7 +99,7 @@ CLAIMS = {
         "flattened, NMNE capture on/off, spaces equal across episodes. FP level: NIC traffic category and link "
         "utilisation band translated from source to FP64 and shown to stay in Discrete(11) for all finite doubles.",
         "note": "Bounds: thresholds of the generated scenario; enums coupled inside a group (every member visited, not "
-        "every product); FirewallObservation is covered only through shipped scenarios in the C01 thorough tier. "
+        "every product); FirewallObservation on the generated firewall-with-DMZ scenario and through shipped scenarios in the C01 thorough tier. "
         "Trusted: CrossHair/z3(/cvc5 fallback), membership walker (validated against space.contains each run), py2smt "
         "(validated against the real functions on a grid each run).",
         "technique": "symbolic execution of the real code (CrossHair+z3) + AST-to-SMT translation of the FP categorisation kernels (z3/cvc5 FP64), counterexamples replayed",
@@ -214,13 +214,13 @@ CLAIMS = {
     },
     "C20": {
         "text": "Inventory conformance over a generated scenario family: the parsed scenario dict of a host-router-server "
-        "scenario is assembled from 12 solver-chosen presence bits (users, extra folder/files, static and default route, a second ACL rule at a solver-chosen position, listen ports, fixing-duration option, simulation defaults, a node declared OFF, explicit node durations, re-declared pre-installed software, a dns-client declared with its own server differing from the host's), bandwidth and a "
+        "scenario is assembled from 14 solver-chosen presence bits (users, extra folder/files, static and default route, a second ACL rule at a solver-chosen position, listen ports, fixing-duration option, simulation defaults, a node declared OFF, explicit node durations, re-declared pre-installed software, a dns-client declared with its own server differing from the host's), bandwidth and a "
         "key-order permutation of the mappings the loader iterates; the real PrimaiteGame.from_config builds it and an "
         "inventory of the built object graph (nodes, addresses, links+bandwidth, routes, ACL rules at positions, "
         "software with options and state, users, folders/files, agents, durations) is compared with an inventory derived independently from the dict, right after from_config and again after the episode set-up that every reset() runs; the NMNE capture settings in effect are the ones the scenario declares although another scenario with the opposite declaration was loaded before in the same process; the permuted scenario builds an identical simulation; the shipped scenario files with an RL agent go through the same comparison; an office-lan node set (1-47 hosts, with/without router, 3 bandwidths) is compared with its documented expansion, including link bandwidths and reachability inside the set; episode-scheduled directories build episode e from the files under key e whatever order the keys are written in; the shipped wireless scenario with each access point declared on either frequency is built on that frequency, also as registered in the air space.",
         "note": "The claim starts at the parsed dict (PyYAML's C parser is outside the encoding); all inputs are finite "
-        "choices - the solver enumerates the combinations (5 bits coupled per quick job, 2^11 combinations in thorough). "
-        "Episode-list schedules (see C01/C04) and plugin node types are not covered. Trusted: CrossHair/z3, the reference inventory.",
+        "choices - the solver enumerates the combinations (14 presence bits, 7 coupled per quick job; all 2^11 combinations of the first 11 in thorough). "
+        "Episode-list schedules are covered for the key-to-files mapping only (schedule_inventory; their run-time behaviour is C01/C04); plugin node types are not covered. Trusted: CrossHair/z3, the reference inventory.",
         "technique": TECH_S,
     },
     "C10": {
